@@ -138,6 +138,11 @@ func checkC04() fw.Check {
 													tag := fmt.Sprintf("%s reach=%v pos=%s responder=%s early=%v", id, reach, pos, rc, early)
 													sc := scenario{tag: tag, v: v, win: w, b: b, model: func(e *simEnv) *pathModel {
 														m := simplePathWin(v, w, dist, reach, 9*time.Millisecond)
+														if !v.Serial && early && pos == "at" && rc == "target" {
+															// the sender is still inside the write of this probe (150 ms) when its answers are
+															// read by the receiver: the probe is on the wire, so its answers count
+															e.w.Faults[simnet.FaultKey{Handle: -1, Op: "write", K: at - w.first + 1}] = simnet.Fault{StallAfter: 150 * time.Millisecond}
+														}
 														m.extra = func(e *simEnv, p *refmatch.Probe) {
 															if p.TTL != at {
 																return
